@@ -236,10 +236,10 @@ struct Value {
             s << int64;
             break;
         case T_DATA:
-            if (data.size() < 5) {
-                // we need to push this as a number
-                int64_t i = int_value();
-                s << i;
+            if (data.size() < 5 && CScriptNum::serialize(int_value()) == data) {
+                // short data that is the canonical encoding of a number is pushed as that number
+                // (OP_n where one exists); anything else, e.g. 0x00 or 0x0100, must keep its bytes
+                s << int_value();
                 break;
             }
             // fall-through
